@@ -464,3 +464,152 @@ Proof.
       cbn [of_oq option_map dopt]; unfold dval; cbn [xsub xadd xneg xeq xmul xofz]; auto.
     rewrite !inject_Z_sub, inject_Z_plus, inject_Z_sub. ring.
 Qed.
+
+(* ------------------------------------------------------------------ interval bounds *)
+
+Lemma poss_embed tf (nc : curve) :
+  vs xsub (vs xadd (sv xmul (XFin tf) (xcurve nc)) (xofz 1)) (np_nanmax (sv xmul (XFin tf) (xcurve nc)))
+  = xcurve (possibility tf nc).
+Proof.
+  assert (H : sv xmul (XFin tf) (xcurve nc) = xcurve (map (option_map (Qmult tf)) nc)).
+  { unfold sv, xcurve. rewrite !map_map. apply map_ext. intros [x|]; reflexivity. }
+  rewrite H, np_nanmax_embed. unfold possibility, vs, xcurve.
+  destruct (nanmax (map (option_map (Qmult tf)) nc)) as [M|]; rewrite !map_map; apply map_ext; intros [x|]; reflexivity.
+Qed.
+
+Lemma iv_min_zmin l : iv_min l = zmin_l l.
+Proof. induction l; simpl; [reflexivity|]. rewrite IHl. reflexivity. Qed.
+Lemma iv_max_zmax l : iv_max l = zmax_l l.
+Proof. induction l; simpl; [reflexivity|]. rewrite IHl. reflexivity. Qed.
+
+Lemma same_elems_min l l' : (forall d, In d l <-> In d l') -> zmin_l l = zmin_l l'.
+Proof.
+  intro H. destruct (zmin_l l) as [a|] eqn:Ea, (zmin_l l') as [b|] eqn:Eb; auto.
+  - apply zmin_l_spec in Ea, Eb. destruct Ea as [Ia La], Eb as [Ib Lb]. f_equal.
+    apply H in Ia. apply H in Ib. specialize (La _ Ib). specialize (Lb _ Ia). lia.
+  - apply zmin_l_spec in Ea. apply zmin_l_none in Eb. subst l'. destruct Ea as [Ia _]. apply H in Ia. destruct Ia.
+  - apply zmin_l_spec in Eb. apply zmin_l_none in Ea. subst l. destruct Eb as [Ib _]. apply H in Ib. destruct Ib.
+Qed.
+
+Lemma same_elems_max l l' : (forall d, In d l <-> In d l') -> zmax_l l = zmax_l l'.
+Proof.
+  intro H. destruct (zmax_l l) as [a|] eqn:Ea, (zmax_l l') as [b|] eqn:Eb; auto.
+  - apply zmax_l_spec in Ea, Eb. destruct Ea as [Ia La], Eb as [Ib Lb]. f_equal.
+    apply H in Ia. apply H in Ib. specialize (La _ Ib). specialize (Lb _ Ia). lia.
+  - apply zmax_l_spec in Ea. apply zmax_l_none in Eb. subst l'. destruct Ea as [Ia _]. apply H in Ia. destruct Ia.
+  - apply zmax_l_spec in Eb. apply zmax_l_none in Ea. subst l. destruct Eb as [Ib _]. apply H in Ib. destruct Ib.
+Qed.
+
+Lemma pick_map_filter {A : Type} (p : A -> bool) l : pick l (map p l) = filter p l.
+Proof. induction l; simpl; [reflexivity|]. rewrite IHl. reflexivity. Qed.
+
+Lemma b_sum_filter {A : Type} (p : A -> bool) l : b_sum (map p l) = Z.of_nat (length (filter p l)).
+Proof. rewrite b_sum_count. apply count_true_filter. Qed.
+
+Lemma v_get_nat {A : Type} (v : list A) d : 0 <= d < vlen v -> v_get v d = nth_error v (Z.to_nat d).
+Proof.
+  intro H. unfold v_get. rewrite <- (Z2Nat.id d) at 1 by lia. unfold vlen in *. rewrite norm_index_nat by lia. reflexivity.
+Qed.
+
+(* possibility[argsorted_poss] >= threshold, entry by entry *)
+Definition selb (P : vec) (T : xf) (j : Z) : bool := match v_get P j with Some x => xge x T | None => false end.
+
+Lemma take_sel (P : vec) T : forall s, (forall j, In j s -> 0 <= j < vlen P) ->
+  exists l, v_take P s = Some l /\ vs xge l T = map (selb P T) s.
+Proof.
+  induction s as [|j r IH]; intro H; [exists []; split; reflexivity|].
+  destruct IH as (l & H1 & H2); [intros; apply H; right; assumption|].
+  assert (Hj : 0 <= j < vlen P) by (apply H; left; reflexivity).
+  cbn [v_take]. rewrite H1. rewrite (v_get_nat _ _ Hj).
+  destruct (nth_error P (Z.to_nat j)) as [x|] eqn:E.
+  - eexists. split; [reflexivity|]. cbn [vs map]. f_equal; [|exact H2].
+    unfold selb. rewrite (v_get_nat _ _ Hj), E. reflexivity.
+  - exfalso. apply nth_error_None in E. unfold vlen in Hj. lia.
+Qed.
+
+Lemma selb_embed (ps : curve) thr d : 0 <= d < vlen (xcurve ps) ->
+  selb (xcurve ps) (XFin thr) d = true <-> exists p, nth_error ps (Z.to_nat d) = Some p /\ ge_nan p thr = true.
+Proof.
+  intro H. unfold selb. rewrite (v_get_nat _ _ H). unfold xcurve. rewrite nth_error_map'.
+  unfold curve, oq in *.
+  destruct (nth_error ps (Z.to_nat d)) as [[p|]|]; cbn [option_map of_oq xge xle ge_nan]; split.
+  - intro E. eauto.
+  - intros (p' & E & G). inversion E; subst. exact G.
+  - discriminate.
+  - intros (p' & E & G). inversion E; subst. discriminate.
+  - discriminate.
+  - intros (p' & E & _). discriminate.
+Qed.
+
+Lemma v_get_curve (ps : curve) d : 0 <= d < Z.of_nat (length ps) ->
+  exists o, znth_error ps d = Some o /\ v_get (xcurve ps) d = Some (of_oq o).
+Proof.
+  intro H. assert (H' : 0 <= d < vlen (xcurve ps)) by (rewrite vlen_xcurve; exact H).
+  rewrite (v_get_nat _ _ H'). unfold xcurve. rewrite nth_error_map'. rewrite znth_error_nat by lia.
+  unfold curve, oq in *. destruct (nth_error ps (Z.to_nat d)) as [o|] eqn:E; [eexists; split; reflexivity|].
+  apply nth_error_None in E. lia.
+Qed.
+
+Lemma v_get_disps (disps : list Q) d : 0 <= d < Z.of_nat (length disps) ->
+  exists q, znth_error disps d = Some q /\ v_get (xetas disps) d = Some (XFin q).
+Proof.
+  intro H. assert (H' : 0 <= d < vlen (xetas disps)) by (rewrite vlen_xetas; exact H).
+  rewrite (v_get_nat _ _ H'). unfold xetas. rewrite nth_error_map'. rewrite znth_error_nat by lia.
+  destruct (nth_error disps (Z.to_nat d)) as [o|] eqn:E; [eexists; split; reflexivity|].
+  apply nth_error_None in E. lia.
+Qed.
+
+Lemma nth_error_Some_lt {A : Type} (l : list A) j x : nth_error l j = Some x -> (j < length l)%nat.
+Proof. intro H. apply nth_error_Some. congruence. Qed.
+
+Lemma is_one_embed o : xeqb (of_oq o) (xofz 1) = is_one (Some o).
+Proof. destruct o; reflexivity. Qed.
+
+Theorem gen_bounds_pixel_eq argsort mn mx tf thr disps c : argsort_ok argsort -> ~ (mn == mx)%Q ->
+  length disps = length c ->
+  gbounds_pixel argsort mn mx tf thr disps c
+  = Some (of_oq (fst (bounds_pixel mn mx tf thr disps c)), of_oq (snd (bounds_pixel mn mx tf thr disps c))).
+Proof.
+  intros Hsort Hs Hd. unfold gbounds_pixel, G.compute_interval_bounds_pixel, bounds_pixel, bounds_idx.
+  rewrite (norm_embed _ _ _ Hs), poss_embed.
+  set (ps := possibility tf (ncurve mn mx c)). set (P := xcurve ps). set (s := argsort P).
+  assert (Hlen : length ps = length c).
+  { unfold ps. rewrite possibility_length. unfold ncurve. apply map_length. }
+  assert (HP : vlen P = Z.of_nat (length c)) by (unfold P; rewrite vlen_xcurve, Hlen; reflexivity).
+  destruct (take_sel P (XFin thr) s) as (l & H1 & H2); [intros j Hj; apply Hsort; exact Hj|].
+  rewrite H1, H2.
+  set (F := filter (selb P (XFin thr)) s).
+  assert (HF : forall d, In d F <-> In d (sel_from 0 thr ps)).
+  { intro d. unfold F. rewrite filter_In, sel_from_in. unfold s. rewrite (Hsort P d). split.
+    - intros [Hr Hb]. apply (selb_embed ps thr d Hr) in Hb. destruct Hb as (p & E & G).
+      exists (Z.to_nat d), p. repeat split; auto. lia.
+    - intros (j & p & E & N & G). assert (Hr : 0 <= d < vlen P).
+      { rewrite HP, <- Hlen. apply nth_error_Some_lt in N. lia. }
+      split; [exact Hr|]. apply (selb_embed ps thr d Hr). exists p. split; [|exact G].
+      replace (Z.to_nat d) with j by lia. exact N. }
+  rewrite b_sum_filter. fold F.
+  unfold v_mask. rewrite map_length, Nat.eqb_refl, pick_map_filter. fold F.
+  rewrite iv_min_zmin, iv_max_zmax, (same_elems_min _ _ HF), (same_elems_max _ _ HF).
+  destruct (zmin_l (sel_from 0 thr ps)) as [lo|] eqn:Elo.
+  2:{ apply zmin_l_none in Elo. rewrite Elo in HF. destruct F as [|d F']; [reflexivity|].
+      exfalso. apply (HF d). left. reflexivity. }
+  pose proof (zmin_l_spec _ _ Elo) as [Ilo _].
+  destruct (zmax_l_some _ _ Ilo) as [hi Ehi]. rewrite Ehi.
+  pose proof (zmax_l_spec _ _ Ehi) as [Ihi _].
+  assert (HFn : (Z.of_nat (length F) =? 0) = false).
+  { apply Z.eqb_neq. apply HF in Ilo. destruct F; [destruct Ilo|simpl; lia]. }
+  rewrite HFn. cbn [negb].
+  assert (Rlo : 0 <= lo < Z.of_nat (length ps)).
+  { apply sel_from_in in Ilo. destruct Ilo as (j & p & E & N & _). apply nth_error_Some_lt in N. lia. }
+  assert (Rhi : 0 <= hi < Z.of_nat (length ps)).
+  { apply sel_from_in in Ihi. destruct Ihi as (j & p & E & N & _). apply nth_error_Some_lt in N. lia. }
+  destruct (v_get_curve ps lo Rlo) as (olo & Zlo & Glo). destruct (v_get_curve ps hi Rhi) as (ohi & Zhi & Ghi).
+  fold P in Glo, Ghi. rewrite Glo, Ghi, Zlo, Zhi, !is_one_embed.
+  set (lo' := if is_one (Some olo) then Z.max 0 (lo - 1) else lo).
+  set (hi' := if is_one (Some ohi) then Z.min (vlen c - 1) (hi + 1) else hi).
+  assert (Rlo' : 0 <= lo' < Z.of_nat (length disps)) by (unfold lo'; destruct (is_one (Some olo)); lia).
+  assert (Rhi' : 0 <= hi' < Z.of_nat (length disps)) by (unfold hi', vlen; destruct (is_one (Some ohi)); lia).
+  destruct (v_get_disps disps lo' Rlo') as (qlo & Dlo & Vlo). destruct (v_get_disps disps hi' Rhi') as (qhi & Dhi & Vhi).
+  unfold lo' in Vlo, Dlo. unfold hi', vlen in Vhi, Dhi. unfold lo', vlen. unfold oq in *.
+  rewrite Vlo, Vhi. cbn [fst snd]. rewrite Dlo, Dhi. reflexivity.
+Qed.
